@@ -2,6 +2,7 @@ package main
 
 import (
 	"fmt"
+	"io"
 	"net"
 	"strings"
 	"sync"
@@ -154,3 +155,60 @@ func (mc *memConn) appendMsg(mbox, flags, body string) error {
 }
 
 func isOK(tagged string) bool { return strings.ToUpper(respClass(tagged)) == "OK" }
+
+// idle runs IDLE for the given time and ends it with DONE; stalled = no "+" or no tagged
+// completion in time.
+func (mc *memConn) idle(d time.Duration, timeout time.Duration) (stalled bool, err error) {
+	mc.mu.Lock()
+	mc.hist = append(mc.hist, "IDLE")
+	mc.mu.Unlock()
+	res := make(chan error, 1)
+	go func() {
+		mc.rc.tag++
+		tag := fmt.Sprintf("T%d", mc.rc.tag)
+		if _, err := io.WriteString(mc.rc.c, tag+" IDLE\r\n"); err != nil {
+			res <- err
+			return
+		}
+		// wait for the continuation request (updates may come first)
+		for {
+			l, err := mc.rc.readLine(timeout)
+			if err != nil {
+				res <- err
+				return
+			}
+			if strings.HasPrefix(l, "+") {
+				break
+			}
+			if strings.HasPrefix(l, tag+" ") {
+				res <- nil // refused
+				return
+			}
+		}
+		time.Sleep(d)
+		if _, err := io.WriteString(mc.rc.c, "DONE\r\n"); err != nil {
+			res <- err
+			return
+		}
+		for {
+			l, err := mc.rc.readLine(timeout)
+			if err != nil {
+				res <- err
+				return
+			}
+			if strings.HasPrefix(l, tag+" ") {
+				res <- nil
+				return
+			}
+		}
+	}()
+	select {
+	case err := <-res:
+		if ne, ok := err.(net.Error); ok && ne.Timeout() {
+			return true, nil
+		}
+		return false, err
+	case <-time.After(timeout + d + 2*time.Second):
+		return true, nil
+	}
+}
